@@ -32,9 +32,11 @@ def _case(draw, unit):
     J = unit.get('J') or draw(st.sampled_from([1, 2, 2, 3, 3, 4, 5]))
     big = draw(st.integers(0, 9)) < 3
     cap = 40 if big else 16
+    if draw(st.integers(0, 24)) == 0:
+        cap = 160                     # occasionally far beyond the usual sizes
     return {'biort': b, 'qshift': q, 'J': J,
             'size': [draw(dtu.size_strategy(cap)), draw(dtu.size_strategy(cap))],
-            'N': draw(st.sampled_from([1, 1, 2, 3])), 'C': draw(st.sampled_from([1, 2, 3])),
+            'N': draw(st.sampled_from([1, 1, 2, 3])), 'C': draw(st.sampled_from([1, 2, 3, 3, 7])),
             'dtype': draw(st.sampled_from(['f64', 'f64', 'f64', 'f32'])),
             'filt_form': draw(st.sampled_from(['names', 'names', 'names', 'tuples'])),
             'reused': draw(st.integers(0, 2)) == 0,
@@ -50,7 +52,7 @@ def common_labels(r, case):
     J = case['J']
     labs = dtu.size_labels(H, W, J)
     r.label(*labs)
-    r.label('J>=2' if J >= 2 else None, case['dtype'], 'nonsquare' if H != W else None,
+    r.label('J>=2' if J >= 2 else None, case['dtype'], 'nonsquare' if H != W else None, 'large_size' if max(H, W) > 40 else None,
             'filters_as_' + case.get('filt_form', 'names'),
             'nondefault_pair' if (case['biort'], case['qshift']) != ('near_sym_a', 'qshift_a') else None)
     r.nontrivial = (J >= 2 and bool(labs)) or (case['biort'], case['qshift']) != ('near_sym_a', 'qshift_a')
